@@ -286,6 +286,18 @@ class Functor(pg_object.Object, utils.Functor):
 
   def __delattr__(self, name: str) -> None:
     """Discard a previously bound argument and reset to its default value."""
+    # The functor itself decides (as `Object.__setattr__` does): its attribute
+    # container is always accessor-writable and is not sealed by `sym_seal`.
+    if base.treats_as_sealed(self):
+      raise base.WritePermissionError(
+          self._error_message(
+              f'Cannot delete attribute {name!r}: object is sealed.'))
+    if not base.writtable_via_accessors(self):
+      raise base.WritePermissionError(
+          self._error_message(
+              f'Cannot delete attribute of <class {self.__class__.__name__}> '
+              f'while `{self.__class__.__name__}.allow_symbolic_assignment` '
+              f'is set to False or under `pg.as_sealed` context.'))
     del self._sym_attributes[name]
     if self.__signature__.get_value_spec(name).has_default:
       self._default_args.add(name)
